@@ -487,3 +487,29 @@ def derived_state_refreshed(ctx, rel, cls, rule, content_attr="lines", exempt=()
                f"{name}() it still describes the previous content", f.lineno)
     ctx.floor(f"{rule}:{rel}", n, 1)
     return n
+
+
+def alphabets_compared_by_value(ctx, rel, rule, min_sites=0):
+    """alphabets are value objects: two alphabets with the same symbols are equal but need not be the same object (unpickled or
+    deep-copied sequences carry their own copy).  A decision that depends on WHICH alphabet a sequence has uses `==`; `is` is
+    only acceptable against `self` (the shortcut in front of the value comparison)"""
+    s = ctx.src(rel)
+    n = 0
+    for qual, f in s.funcs.items():
+        for c in ast.walk(f):
+            if not (isinstance(c, ast.Compare) and len(c.ops) == 1 and isinstance(c.ops[0], (ast.Is, ast.IsNot, ast.Eq, ast.NotEq))):
+                continue
+            l, r = c.left, c.comparators[0]
+            txt = ast.unparse(l) + " " + ast.unparse(r)
+            if "alph" not in txt.lower():
+                continue
+            if any(isinstance(x, ast.Constant) for x in (l, r)) or any(isinstance(x, ast.Name) and x.id == "self" for x in (l, r)):
+                continue
+            if any(c in ast.walk(g) for q2, g in s.funcs.items() if q2 != qual and q2.startswith(qual + ".")):
+                continue
+            n += 1
+            ctx.ob(rule, rel, qual, ast.unparse(c)[:80], not isinstance(c.ops[0], (ast.Is, ast.IsNot)),
+                   "two alphabets are compared by identity: an equal alphabet that is another object (after pickling / deepcopy) takes the other branch",
+                   c.lineno)
+    ctx.floor(f"{rule}:{rel}", n, min_sites)
+    return n
